@@ -547,3 +547,42 @@ def r_rf_zero_convention(cx):
             cx.ob("R-RF-ZERO-CONVENTION", fn, False,
                   "anchor-missing: %s no longer derives the flattening of a table entry from its rf" % fn, cx.where(f.d["span"]))
     cx.count("R-RF-ZERO-CONVENTION", "table_divisions", n)
+
+
+@rule("R-POLAR-HEIGHT", ["C14", "C06"])
+def r_polar_height(cx):
+    """Both cartesian-to-geographic routes (the `cart` operator's inverse and GeoCart::geographic) short-cut the polar
+    axis: the latitude is +-90 degrees (copysign of pi/2 with Z) and the height is |Z| - b, b the *semiminor* axis - the
+    distance from the pole of the ellipsoid. Wherever one of the two functions subtracts an axis of the ellipsoid from
+    |Z|, that axis is the semiminor one (the call semiminor_axis, or a value read from it)."""
+    n = 0
+    for fn in ("inner_op::cart::cart_inv", "ellipsoid::geocart::GeoCart::geographic"):
+        if not cx.f.has_fn(fn):
+            cx.ob("R-POLAR-HEIGHT", fn, False, "anchor-missing: %s" % fn)
+            continue
+        f = cx.f.fn(fn)
+        sites = 0
+        for bb, i, s in f.all_stmts():
+            if not (s["k"] == "assign" and s["rv"]["k"] == "bin" and s["rv"].get("op") == "Sub"):
+                continue
+            v = f.rvalue(s["rv"], (bb, i))
+            if v[0] != "bin":
+                continue
+            a, b = mir.strip_refs(v[2]), mir.strip_refs(v[3])
+            if not (a[0] == "call" and isinstance(a[1], str) and a[1].rsplit("::", 1)[-1] == "abs"):
+                continue
+            if not (b[0] == "call" and isinstance(b[1], str) and b[1].rsplit("::", 1)[-1] in (
+                    "semiminor_axis", "semimajor_axis", "semimedian_axis", "a", "b")):
+                continue
+            sites += 1
+            n += 1
+            ok = b[1].rsplit("::", 1)[-1] in ("semiminor_axis", "b")
+            cx.ob("R-POLAR-HEIGHT", "%s/height%d" % (fn, sites - 1), ok,
+                  "%s: on the polar axis the height is |Z| - b" % fn if ok else
+                  "%s computes the height on the polar axis as |Z| minus the %s (must be the semiminor axis): off by a - b, "
+                  "about 21 km, exactly at the poles - and different from the other route" % (fn, b[1].rsplit("::", 1)[-1]),
+                  cx.where(s.get("span")))
+        if sites == 0:
+            n += 1
+            cx.ob("R-POLAR-HEIGHT", fn, False, "anchor-missing: no polar short-cut |Z| - axis in %s" % fn, cx.where(f.d["span"]))
+    cx.count("R-POLAR-HEIGHT", "polar_heights", n)
